@@ -25,6 +25,9 @@ def run_check(prop, tier, root):
     mod = importlib.import_module("sa.rules." + prop)
     ctx = Ctx(root)
     extra = mod.check(ctx, tier) or {}
+    if tier == "thorough" and os.environ.get("VERIF_NO_SELFTEST") != "1":
+        from sa import selftest
+        extra.update(selftest.run(prop, root))
     floor = getattr(mod, "MIN_OBLIGATIONS", 1)
     decided = sum(1 for o in ctx.obligations if o.status != "unknown")
     if decided < floor:
